@@ -236,11 +236,13 @@ fn corpus(tier: Tier) -> &'static Corpus {
 pub fn plan(tier: Tier) -> Vec<Phase> {
     let c = corpus(tier);
     let (multi, arbitrary, large) = if tier == Tier::Quick { (150_000, 60_000, 120_000) } else { (3_000_000, 1_000_000, 3_000_000) };
+    let runs = if tier == Tier::Quick { 1_200 } else { 20_000 };
     vec![
         Phase { name: "single-faults", count: c.total, exhaustive: true },
         Phase { name: "multi-faults", count: multi, exhaustive: false },
         Phase { name: "arbitrary-bytes", count: arbitrary, exhaustive: false },
         Phase { name: "large-files", count: large, exhaustive: false },
+        Phase { name: "long-runs", count: runs, exhaustive: false },
     ]
 }
 
@@ -428,6 +430,39 @@ pub fn generate(tier: Tier, phase: &str, idx: u64, r: &mut Prng) -> Sc {
                     data: Blob(data),
                     origin: format!("{}:multi:{}", f.name, kinds.join("+")),
                 },
+                transport,
+            }
+        }
+        "long-runs" => {
+            // pathological repetition: tens of thousands of copies of one short token (blank lines, spaces,
+            // delimiters, digits) before, between or after the records of a valid file
+            let f = &c.files[r.usize_below(c.files.len())];
+            let token: &[u8] = *r.pick(&[&b"\n"[..], b" \n", b"\t\n", b" ", b">", b">\n", b"//\n", b"XX\n", b"A", b"1 ", b"9", b"\r\n", b"A:\t0\n", b"[", b"CC  x\n"]);
+            let reps = *r.pick(&[30_000usize, 50_000, 100_000, 200_000]);
+            let mut run = Vec::with_capacity(token.len() * reps);
+            for _ in 0..reps {
+                run.extend_from_slice(token);
+            }
+            let lines: Vec<&[u8]> = f.data.split_inclusive(|&b| b == b'\n').collect();
+            let at = r.usize_below(lines.len() + 1);
+            let mut data = Vec::with_capacity(f.data.len() + run.len());
+            for (i, l) in lines.iter().enumerate() {
+                if i == at {
+                    data.extend_from_slice(&run);
+                }
+                data.extend_from_slice(l);
+            }
+            if at == lines.len() {
+                data.extend_from_slice(&run);
+            }
+            let mut transport = Transport::all_at_once();
+            if r.chance(1, 2) {
+                transport.mode = Mode::Wrapped;
+                transport.cap = *r.pick(&[64usize, 4096, 8192, 65536]);
+                transport.chunks = vec![r.range(1000, 70_000)];
+            }
+            Sc {
+                input: Input::Bytes { format: f.format, data: Blob(data), origin: format!("{}:long-run", f.name) },
                 transport,
             }
         }
